@@ -5,6 +5,7 @@ import (
 	"go/types"
 	"sort"
 	"strings"
+	"verifcheck/internal/core"
 
 	"golang.org/x/tools/go/ssa"
 
@@ -21,9 +22,9 @@ var c03LemmaFuncs = []string{
 func init() {
 	extraLemmaFuncs = append(extraLemmaFuncs, c03LemmaFuncs...)
 	Register(&Spec{
-		ID: "C03",
+		ID:          "C03",
 		Explanation: "Decides that the bit layout of every pointer-word decoder equals the encoding specification, by abstract interpretation of the decoder functions over a per-bit provenance domain (R1: type bits [0,2), far flag bit 2, offset = sign-extended [2,32), data words [32,48), pointer count [48,64), element size [32,35), count [35,64), far offset [3,32) bytes, segment id [32,64), landing-pad rewrite); that the resolution code has the confirmed normal form in each pointer shape (R2: near pointers against paddr+8, far against the pad's +8, double-far against offset 0 of the segment named in the pad with the tag's size fields; composite lists take count and element size from the tag and start one word later); and the default/upgrade clauses (R3: dataAddress and Struct.Ptr fail beyond the section, primitiveElem on a struct list requires both sections to be large enough and returns the address of the section the expected element names). Does NOT decide value equality of decoded trees against an independent decoder.",
-		Run: runC03,
+		Run:         runC03,
 	})
 }
 
@@ -139,7 +140,7 @@ func evalStructResult(ev *bitlayout.Evaluator, f *ssa.Function, args []bitlayout
 			if err != nil {
 				return nil, err
 			}
-			out[fld.Name()] = v
+			out[core.FieldName(fld)] = v
 		}
 	}
 	if len(out) == 0 {
